@@ -40,6 +40,12 @@ pub async fn restore(
     crate::persistence::restore(subsys, config, api).await
 }
 
+/// ReDB persistence only: queue the time-stamp update the one-second timer task would queue now.
+#[cfg(feature = "redb")]
+pub async fn redb_queue_timestamp_update(worterbuch: &Worterbuch) -> bool {
+    crate::worterbuch::verif_hooks::redb_queue_timestamp_update(worterbuch).await
+}
+
 /// Complete canonical dump of the core's state (see the three `*_hooks.rs` files).
 pub fn snapshot(worterbuch: &Worterbuch) -> serde_json::Value {
     crate::worterbuch::verif_hooks::snapshot(worterbuch)
